@@ -32,6 +32,14 @@ def gen(rng, n):
         if rng.chance(1, 5):
             d["NEW_RWND_AT"] = rng.choice([30000, 100000])
             d["NEW_RWND"] = rng.choice([500, 5000, 100000])
+        # keep the transfer within a few hundred round trips of the smallest window
+        w = min(d.get("STREAM_RWND", 1 << 40), d.get("RWND", 1 << 40), d.get("SEND_WINDOW", 1 << 40))
+        if d["STREAM_BYTES"] > 100 * w:
+            d["STREAM_BYTES"] = 100 * w
+        if d.get("ECHO_BYTES", 0) > 100 * w:
+            d["ECHO_BYTES"] = 100 * w
+        if d.get("PACING_BPS") and d["STREAM_BYTES"] > d["PACING_BPS"] // 2:
+            d["STREAM_BYTES"] = d["PACING_BPS"] // 2
         cases.append(S.case_of(d))
     return cases
 
